@@ -664,6 +664,41 @@ func (in *inst) merge(b *ssa.BasicBlock, preds []*State, predBlocks []*ssa.Basic
 				}
 			}
 		}
+		// a symbol bounded from above by a ghost symbol (`s <= ghost:...`, a fact the client added about a quantity that
+		// only grows) may be replaced by the ghost where it stands as an upper bound: `next <= s` gives `next <= ghost`.
+		// Two branches that each compared with their own read of that quantity then agree on one fact.
+		for _, p := range preds {
+			if len(p.Facts) < base {
+				continue
+			}
+			for _, gf := range p.Facts {
+				var ghost, sym string
+				if len(gf.L.T) != 2 || gf.L.K.Sign() != 0 {
+					continue
+				}
+				for name, co := range gf.L.T {
+					if strings.HasPrefix(name, "ghost:") && co.Cmp(rat(1)) == 0 {
+						ghost = name
+					} else if co.Cmp(rat(-1)) == 0 {
+						sym = name
+					}
+				}
+				if ghost == "" || sym == "" {
+					continue
+				}
+				for _, f := range p.Facts[base:] {
+					co, has := f.L.T[sym]
+					if !has || co.Cmp(rat(1)) != 0 {
+						continue
+					}
+					c := Ineq{f.L.Add(Sym(ghost)).Add(Sym(sym).Scale(rat(-1)))}
+					if k := c.String(); !seen[k] && len(cands) < 64 {
+						seen[k] = true
+						cands = append(cands, c)
+					}
+				}
+			}
+		}
 		for _, c := range cands {
 			all := true
 			for _, p := range preds {
